@@ -449,6 +449,7 @@ def check_bw_reduction(ctx: Check, tree: Tree) -> None:
 
 def run(ctx: Check, tree: Tree) -> None:
     ctx.decided += [
+        "R-FORWARD (term level): every barrier factor inside EnergyDependentWidth depends on the caller's meson_radius and angular_momentum",
         "every (caller, callee, parameter) triple over {phsp_factor, angular_momentum, meson_radius} in ampform.dynamics forwards the caller's value (R-FORWARD)",
         "F = (1-iK)^-1 P; F^ = (1 - i K^ rho)^-1 P with K^ = conj(sqrt rho)^-1 K sqrt(rho)^-1, F = sqrt(rho) F^ (R-TERM-NC)",
         "K[i,j] and P[i] are substituted by the library's own parametrisations with matching indices and shared pole symbols (R-WIRING)",
